@@ -809,6 +809,11 @@ func (it *tableIterator) Seek(key []byte) {
 		// idx is the first block where baseKey > key
 		// So we want idx-1, which is the last block where baseKey <= key
 		it.seekHelper(idx-1, key)
+		if it.err == io.EOF && idx < len(offsets) {
+			// Every entry of block idx-1 sorts before key, so the first entry >= key is
+			// the first entry of block idx (its base key is > key).
+			it.seekHelper(idx, key)
+		}
 	} else {
 		// Reverse: find last block that could contain key <= target
 		// We need to check from the end and find the last block where baseKey <= key
